@@ -103,7 +103,67 @@ def check_loop_method(ctx, F, rule, name, mutable, adt=MT):
         else:
             ctx.ob(rule, inst + "/exit-clean", not comp and p.outcome == "return",
                    "outside the loop body nothing is evaluated", body["span"], trace_of(p), what="extra-evaluation")
+    if n_iter == 0:
+        # idiom: self.timelines.iter().for_each(|t| t.<name>(values, time))
+        n_iter = check_for_each(ctx, F, rule, name, mutable, body, paths, vec, tf)
     ctx.floor(rule, inst + " loop-body paths", n_iter, 1)
+
+
+def check_for_each(ctx, F, rule, name, mutable, body, paths, vec, tf):
+    inst = body["path"]
+    n = 0
+    for p in paths:
+        fe = calls(p, lambda e: e["fn"]["name"] == "for_each" and e["fn"].get("trait", "").endswith("Iterator"))
+        if len(fe) != 1:
+            continue
+        src, clo = fe[0]["descs"][0], fe[0]["descs"][1]
+        ok_src = ordered_source(src, vec)
+        ctx.ob(rule, inst + "/ordered-traversal", ok_src,
+               "components must be visited by an order-preserving traversal of self.%s; for_each ranges over %s"
+               % (tf, show(src)), body["span"], trace_of(p), what="traversal-not-ordered")
+        cb = F.bodies.get(clo[2]) if clo[0] == "agg" and clo[1] == "closure" else None
+        if cb is None:
+            continue
+        eng = pse.Engine(F, inline=lambda fn, b: False)
+        cps = eng.run(cb)
+        ctx.count_paths(cps, cb)
+        caps = [v for _, v in clo[4]]
+        for q in cps:
+            comp = calls(q, lambda e: is_trait_call(e, TL, name))
+            ok = q.outcome == "return" and len(comp) == 1
+            if ok:
+                n += 1
+                d = comp[0]["descs"]
+                # captured environment fields must be the caller's arguments, passed through unchanged
+                env = ("deref", ("param", 1))
+                def cap(i):
+                    return ("field", env, str(i))
+                elem_ok = d[0] in (("&", ("deref", ("param", 2))), ("&mut", ("deref", ("param", 2))))
+                vals = [x for x in d[1:]]
+                want_vals = [("ref", ("M", ("param", 2)), (), True)] if False else None
+                # resolve captures: capture k holds a reference to / copy of a caller argument
+                def resolves_to(x, target):
+                    # strip reference / dereference wrappers down to a captured-environment field
+                    while isinstance(x, tuple) and x and x[0] in ("deref", "&", "&mut"):
+                        x = x[1]
+                    for i, cv in enumerate(caps):
+                        if x == cap(i):
+                            if cv[0] == "ref" and cv[1] == ("M", target) and cv[2] == ():
+                                return True      # a reborrow of the caller's reference
+                            k = 0
+                            while cv[0] == "ref" and k < 4:
+                                cv = eng.read_loc(p, cv[1], cv[2])
+                                k += 1
+                            return cv == target
+                    return False
+                if mutable:
+                    ok = elem_ok and resolves_to(d[1], ("param", 2))
+                else:
+                    ok = elem_ok and resolves_to(d[1], ("param", 2)) and resolves_to(d[2], ("param", 3))
+            ctx.ob(rule, inst + "/delegates-unchanged", ok,
+                   "each component must receive the caller's arguments unchanged (for_each closure): %s"
+                   % [[show(x)[:80] for x in c["descs"]] for c in comp], cb["span"], trace_of(q), what="arguments-changed")
+    return n
 
 
 def closure_paths(ctx, F, term):
